@@ -1953,6 +1953,17 @@ fn gen_c01(tier: &str, r: &Rng, o: &mut Out<'_>) {
         o.h(&format!("desc {}", hex(&r.bytes(r.below(40) as usize))));
         o.h(&format!("pat {}", hex(&r.bytes(r.below(40) as usize))));
         o.h(&format!("pkt {}", hex(&rand_packet(r))));
+        // section headers, value types, timestamps, clock references on arbitrary bytes
+        o.h(&format!("sch {}", hex(&r.bytes(r.below(6) as usize))));
+        o.h(&format!("tsh {}", hex(&r.bytes(r.below(9) as usize))));
+        o.h(&format!("ts {}", hex(&r.bytes(5))));
+        o.h(&format!("crefs {}", hex(&r.bytes(6))));
+        o.h(&format!("pidtry {}", r.below(70000)));
+        o.h(&format!("tsu64 {}", r.next() >> (r.below(40) as u32)));
+        // the raw section consumers and the PES filter on random 188-byte packets of one PID
+        let pk: Vec<Vec<u8>> = (0..(1 + r.below(6))).map(|_| { let mut p = rand_packet(r); p[0] = 0x47; p[1] = (p[1] & 0x60) | 1; p[2] = 0; if r.chance(2, 3) { p[3] = (p[3] & 0x0f) | 0x10; } p }).collect();
+        o.h(&format!("sec {} {}", if r.chance(1, 2) { "s" } else { "c" }, join(&pk)));
+        o.h(&format!("pesf {}", join(&pk)));
     }
     o.meta("plans", "well-formed, hostile-PSI, dispatcher and random streams, mutated (bit flips, length-field edits, drops, duplicates, swaps), pushed whole / packet-aligned / at arbitrary byte offsets; both builds (cfg(fuzzing) bypasses the CRC); every callback touches every accessor and Debug impl");
 }
